@@ -47,7 +47,7 @@ RULE = ("one case = one workload (seeded: 4-15 writes, rf 1/3/5, schedule of wri
         "synced and appended head) and restarted as leader or follower; non-trivial = a crash instant was used, distinct by "
         "(workload, instant, mode, cut, restart role); trace cases: distinct by macro sequence")
 LEGS = [
-    {"name": "crash", "harness": "crash", "model": "crash", "n_quick": 480, "n_thorough": 28000,
+    {"name": "crash", "harness": "crash", "model": "crash", "n_quick": 400, "n_thorough": 28000,
      "corpus": "corpus/crash", "timeout": 600, "timeout_thorough": 6000,
      "compare": (lambda impl, model: model == "spec-leg" or impl == model)},
 ]
